@@ -8,7 +8,7 @@ import UnifexModel.Proto.ScopeV1
 namespace Unifex.Props.C08_v1b
 open Unifex.Core Unifex.Proto.ScopeV1
 
-theorem v1_stop_spawn_safe : ∀ s, Reach (sys cfgStopSpawn) s → safe cfgStopSpawn s = true :=
+theorem v1_stop_spawn_safe : ∀ s, Reach (sys cfgStopSpawn) s → safeQ cfgStopSpawn s = true :=
   safe_of_check _ { coded with M := 751 } 400 _ (by decide +kernel)
 
 end Unifex.Props.C08_v1b
